@@ -12,9 +12,10 @@ from odxgen import values as V
 ID = "C03"
 # LEAN_TARGETS / THEOREMS: filled in by the author of the Lean codec/compu model (planned: OdxVerif.Props.C03 with
 # C03_reencode, C03_compu_roundtrip)
-LEAN_TARGETS = ['OdxVerif.Props.C03', 'OdxVerif.Props.C07']
+LEAN_TARGETS = ['OdxVerif.Props.C03', 'OdxVerif.Props.C07', 'OdxVerif.Props.C03Nested']
 DRIVERS = ["drv_codec"]
-THEOREMS = ["OdxVerif.Codec." + t for t in ['C03_reencode_struct', 'C03_reencode_flat', 'C03_no_warning_without_overlap', 'C03_reencode_partial', 'C03_negative_zero_counterexample', 'reenc_agree', 'encAll_nowarn']]
+THEOREMS = ["OdxVerif.Codec." + t for t in ['C03_reencode_struct', 'C03_reencode_flat', 'C03_no_warning_without_overlap', 'C03_reencode_partial', 'C03_negative_zero_counterexample', 'reenc_agree', 'encAll_nowarn',
+                                              'C03_reencode_nested', 'C03_encoded_is_canonical', 'C03_empty_dynlen_before_offset_counterexample', 'C03_static_padding_behind_end_counterexample', 'descs_reencode_pure', 'Descs.supplied_eq_decoded']]
 RULE = ("PDUs 'from the wire': for simple-tier descriptions (standard-length objects of all base types/encodings/byte orders/bit positions in "
         "nested structures with/without BYTE-SIZE, static fields, bit-packed groups) every raw value of objects <= 8 bit and boundary/sampled raw "
         "values of wider ones are placed by the independent positional interpreter odxgen/refpdu.py, restricted to canonical PDUs (canonPdu, "
